@@ -249,7 +249,8 @@ def build(call, conc):
         kw = {"inp": X(), "tinp": T(), "suspect_threshold": rat(p["st"], unit),
               "fail_threshold": rat(p["ft"], unit), "check_type": p["kind"]}
         if p["period"] != NA:
-            kw["test_period"] = p["period"]
+            # pscale: the window length is given in the abstract time unit too (half seconds -> 1.5, 2.5 ... seconds)
+            kw["test_period"] = p["period"] * c["tunit"] if c.get("pscale") else p["period"]
         if p["minobs"] != NA:
             kw["min_obs"] = p["minobs"]
         if p["minperiod"] != NA:
